@@ -307,7 +307,10 @@ func checkCache(h *History, vs []*opView) {
 	// (only when there is no memory level in front: a small one may keep or
 	// drop what it likes)
 	redisKept := func(s *serialRec, by time.Duration) bool {
-		return redisDurable >= 0 && rp.Cache.MemSize == 0 && arrivedBy(s) >= time.Second+redisRTT+100*time.Millisecond+sigma && arrivedBy(s)+redisDurable < by
+		// (and only positive answers: a negative one is written with NX, which
+		// the remains of an older value - up to a second beyond the expiry the
+		// proxy itself goes by - make fail)
+		return redisDurable >= 0 && rp.Cache.MemSize == 0 && s.positive && arrivedBy(s) >= time.Second+redisRTT+100*time.Millisecond+sigma && arrivedBy(s)+redisDurable < by
 	}
 	// storedForSure: an answer that reached the proxy is in the cache, unless
 	// it is a negative one that arrived while a positive entry of the same key
